@@ -96,6 +96,7 @@ func runC15(c *core.Ctx) {
 
 	// executeBlock: Reset before every handleTransaction
 	checkResetBeforeTx(c, "C15.reset≺tx")
+	checkLayerReads(c, "C15.committed-delete-visible", "")
 	// handleTransaction: results only when overlay.Error()==nil
 	if htf := c.Fn(pkLedger, "LedgerStoreImp.handleTransaction"); htf != nil {
 		oe := eng.Obj(c, pkOverlay, "OverlayDB.Error")
